@@ -239,6 +239,50 @@ def randomgen_corpus():
     return out
 
 
+ACCEPTANCE_COUNTS = [6, 6, 54, 18, 90, 36, 96, 4, 16, 12, 144, 12, 144, 12, 144, 24, 576, 96, 24, 24, 144, 240, 4, 2,
+                     2, 2, 2, 0, 0]
+
+
+def acceptance_corpus():
+    """Designs of the repository's own acceptance tests that assert hand-computed solution counts
+    (test_exhaust_combinatoric, test_k_constraint, test_pin).  C02 exhausts IterateSATGen on them and proves the count
+    equal to the reference's, so the reference is tied to ~25 independently computed numbers."""
+    out = []
+    add = out.append
+    K3 = {'name': 'color', 'levels': ['red', 'green', 'blue']}
+    for n in (3, 4, 5):
+        add(D([K3], cross(['color'], ['color'], [['MinimumTrials', n]], rcc=False)))                    # 6, 54, 90
+        add(D([K3], repeat(cross(['color'], ['color'], [], rcc=False), [['MinimumTrials', n]])))      # 6, 18, 36
+    K2 = {'name': 'color', 'levels': ['red', 'green']}
+    S3 = {'name': 'size', 'levels': ['small', 'med', 'large']}
+    M = {'name': 'match', 'window': {'kind': 'within', 'factors': ['color', 'size']},
+         'levels': [{'name': 'high', 'pred': ['table', [['red', 'small'], ['red', 'med'], ['green', 'small'], ['green', 'med']]]},
+                    {'name': 'low', 'pred': ['table', [['red', 'large'], ['green', 'large']]]}]}
+    add(D([K2, S3, M], cross(['color', 'size', 'match'], ['color', 'match'])))                           # 96
+    C2_ = {'name': 'color', 'levels': ['red', 'blue']}
+    S2 = {'name': 'size', 'levels': ['big', 'small']}
+    Dr = {'name': 'direction', 'levels': ['up', 'down', 'left', 'right']}
+    for cs in ([['AtMostKInARow', 1, 'color', 'red'], ['AtLeastKInARow', 2, 'color', 'blue']],    # 4
+               [['AtMostKInARow', 1, 'color', 'red']], [['AtLeastKInARow', 2, 'color', 'red']],     # 12, 12
+               [['ExactlyKInARow', 2, 'color', 'red']], [['ExactlyK', 2, 'color', 'red']]):         # 12, 24
+        add(D([C2_, S2], cross(['color', 'size'], ['color', 'size'], cs)))
+        add(D([C2_, S2], repeat(cross(['color', 'size'], ['color', 'size'], cs), [['MinimumTrials', 8]])))
+    for cs in ([['ExactlyK', 3, 'direction', 'up'], ['ExactlyK', 1, 'direction', 'right']],          # 96
+               [['ExactlyK', 4, 'direction', 'up']],                                                  # 24
+               [['ExactlyKInARow', 4, 'direction', 'up'], ['ExactlyK', 4, 'direction', 'up']],       # 24
+               [['ExactlyKInARow', 3, 'direction', 'up'], ['ExactlyK', 3, 'direction', 'up']],       # 144
+               [['ExactlyKInARow', 1, 'direction', 'up'], ['ExactlyK', 2, 'direction', 'up'], ['Exclude', 'direction', 'left'],
+                ['ExactlyKInARow', 1, 'direction', 'down'], ['ExactlyKInARow', 1, 'direction', 'right']]):   # 240
+        add(D([C2_, S2, Dr], cross(['color', 'size', 'direction'], ['color', 'size'], cs)))
+    base = cross(['color'], ['color'], [['MinimumTrials', 4], ['AtMostKInARow', 1, 'color', None]])
+    add(D([C2_], repeat(base, [['MinimumTrials', 8]])))                                                 # 4
+    add(D([C2_], repeat(base, [['MinimumTrials', 8], ['AtMostKInARow', 1, 'color', None]])))           # 2
+    L3 = {'name': 'letter', 'levels': ['a', 'b', 'c']}
+    for i in (0, -1, -2, 100, -100):
+        add(D([L3], cross(['letter'], ['letter'], [['Pin', i, 'letter', 'b']])))                       # 2, 2, 2, 0, 0
+    return out
+
+
 # ---- seeded random descriptors -------------------------------------------------------------------------------------------
 
 def random_design(rnd, tmax=8):
@@ -332,7 +376,7 @@ def random_design(rnd, tmax=8):
 
 
 def designs(tier, seed):
-    out = fixed_corpus() + randomgen_corpus()
+    out = fixed_corpus() + randomgen_corpus() + acceptance_corpus()
     rnd = random.Random(seed * 7919 + 17)
     n = 400 if tier == 'thorough' else 40
     tmax = 12 if tier == 'thorough' else 8
